@@ -70,7 +70,7 @@ class HeapExec(DynExec):
             lo = z3.IntVal(0)
             hi = length if length is not None else fresh(name + '_len', z3.IntSort())
         ln = z3.simplify(hi - lo)
-        self.add_fact(st, ln >= 0)
+        st.assume(ln >= 0)          # (branch-local: follows from where the split position lies)
         t = SEGTXT(z3.IntVal(base), lo, hi)
         if txt is not None:
             self.add_fact(st, t == txt)
@@ -83,7 +83,9 @@ class HeapExec(DynExec):
         mid = z3.simplify(seg['lo'] + off)
         s1 = self.new_seg(st, uni=seg['uni'], base=seg['base'], lo=seg['lo'], hi=mid)
         s2 = self.new_seg(st, uni=seg['uni'], base=seg['base'], lo=mid, hi=seg['hi'])
-        self.add_fact(st, seg['txt'] == z3.Concat(self.segs(st)[s1]['txt'], self.segs(st)[s2]['txt']))
+        # concatenation law of SEGTXT, guarded by its side condition so that it is valid unconditionally
+        self.add_fact(st, z3.Implies(z3.And(seg['lo'] <= mid, mid <= seg['hi']),
+                                     seg['txt'] == z3.Concat(self.segs(st)[s1]['txt'], self.segs(st)[s2]['txt'])))
         return s1, s2
 
     def item_len(self, st, it):
@@ -192,6 +194,9 @@ class HeapExec(DynExec):
         for p_ in cands:
             if p_ not in provs:
                 provs.append(p_)
+        if not provs:
+            # the path condition is unsatisfiable here (a branch that will be pruned): any provider will do
+            provs = definers[:1]
         if len(provs) != 1:
             raise OutsideSubset('method %s is provided by several classes for this receiver: %s'
                                 % (name, [p_.__name__ for p_ in provs]))
@@ -256,28 +261,35 @@ class HeapExec(DynExec):
         raise OutsideSubset('str(%r)' % (v,))
 
     # ------------------------------------------------------------------ positions
-    def split_at(self, st, lref, pos):
-        """make sure there is an item boundary at absolute position pos (0 <= pos <= len, entailed by the path
-        condition); returns the index of the first item at/after the boundary"""
+    def split_at(self, st, lref, pos, strict=False):
+        """make sure there is an item boundary at absolute position pos; returns the index of the first item at/after
+        the boundary.  strict: pos must be the position of an existing element (pos < len), so the item that contains
+        it is located exactly; otherwise 0 <= pos <= len and a boundary at the end of a segment is acceptable."""
         items = list(st.lists[lref.lid])
         cum = z3.IntVal(0)
+        cx = smt.Ctx(st.pc)
         for k, it in enumerate(items):
             ln = self.item_len(st, it)
-            if smt.entails(st.pc, pos == cum):
-                return k
-            if smt.entails(st.pc, pos >= cum + ln):
+            if cx.entails(pos >= cum + ln):
                 cum = z3.simplify(cum + ln)
                 continue
+            if cx.entails(pos == cum):
+                if strict and it[0] == 'seg' and not cx.entails(ln >= 1):
+                    # an empty segment at this position: the element is further right
+                    raise _NeedCase(z3.simplify(pos - cum), k, cum, ln, [ln == 0, ln >= 1])
+                return k
+            inside = z3.And(pos >= cum, pos < cum + ln) if strict else z3.And(pos >= cum, pos <= cum + ln)
+            if not cx.entails(inside):
+                raise _NeedCase(z3.simplify(pos - cum), k, cum, ln,
+                                [z3.And(pos >= cum, pos < cum + ln), pos >= cum + ln] if strict else
+                                [pos == cum, z3.And(pos > cum, pos < cum + ln), pos >= cum + ln])
             if it[0] == 'el':
-                raise _NeedCase(z3.simplify(pos - cum), k, cum, ln)
-            # inside (or at either end of) this opaque segment: split it there; a resulting empty piece is harmless
-            if not smt.entails(st.pc, z3.And(pos >= cum, pos <= cum + ln)):
-                raise _NeedCase(z3.simplify(pos - cum), k, cum, ln)
+                raise OutsideSubset('position inside a single element')
             off = z3.simplify(pos - cum)
             s1, s2 = self.split_seg(st, it[1], off)
             self._replace_seg_everywhere(st, it[1], [('seg', s1), ('seg', s2)])
             return [i for i, x in enumerate(st.lists[lref.lid]) if x == ('seg', s2)][0]
-        if smt.entails(st.pc, pos == cum):
+        if not strict and cx.entails(pos == cum):
             return len(items)
         raise OutsideSubset('position beyond the list')
 
@@ -293,24 +305,25 @@ class HeapExec(DynExec):
                         out.append(x)
                 st.lists[lid] = tuple(out)
 
-    def split_with_cases(self, st, lref, pos):
+    def split_with_cases(self, st, lref, pos, strict=False):
         """like split_at but forks on where pos falls when the path condition does not decide it"""
         try:
-            return [(st, self.split_at(st, lref, pos))]
+            return [(st, self.split_at(st, lref, pos, strict))]
         except _NeedCase as nc:
             res = []
-            ln, cum = nc.ln, nc.cum
-            for cond in (pos == cum, z3.And(pos > cum, pos < cum + ln), pos >= cum + ln):
+            for cond in nc.cases:
                 if smt.feasible(st.pc + [cond]):
                     s = st.fork()
                     s.assume(cond)
-                    res.extend(self.split_with_cases(s, lref, pos))
+                    res.extend(self.split_with_cases(s, lref, pos, strict))
             return res
 
     def elem_at(self, st, lref, pos):
         """materialise the element at absolute position pos (0 <= pos < len entailed); returns [(state, value)]"""
         out = []
-        for s, k in self.split_with_cases(st, lref, pos):
+        if not smt.feasible(st.pc):
+            return []          # dead path
+        for s, k in self.split_with_cases(st, lref, pos, True):
             items = s.lists[lref.lid]
             if k >= len(items):
                 raise OutsideSubset('index at the end of the list')
@@ -700,12 +713,27 @@ class HeapExec(DynExec):
             # laws are instantiated by loop lemmas in the sidecar contracts)
             funcs, lst = args[0], args[1]
             pid = pred_id(funcs)
-            snap = z3.IntVal(snapshot_id(st, lst))
+            snap = snapshot_id(st, lst)
+            zp, zs = z3.IntVal(pid), z3.IntVal(snap)
+            reg = st.ghost.setdefault('__mfacts__', {'M': [], 'N': []})
+            reg = st.ghost['__mfacts__'] = {'M': list(reg['M']), 'N': list(reg['N'])}
             if name == 'MATCH':
-                return [(st, SBool(MATCHF(z3.IntVal(pid), snap, self.z_int(args[2]))))]
+                j = self.z_int(args[2])
+                for (p2, s2, lo, hi) in reg['N']:
+                    if (p2, s2) == (pid, snap):
+                        self.add_fact(st, z3.Implies(z3.And(NOMATCHF(zp, zs, lo, hi), lo <= j, j < hi),
+                                                     z3.Not(MATCHF(zp, zs, j))))
+                reg['M'].append((pid, snap, j))
+                return [(st, SBool(MATCHF(zp, zs, j)))]
             lo, hi = self.z_int(args[2]), self.z_int(args[3])
-            self.add_fact(st, z3.Implies(lo >= hi, NOMATCHF(z3.IntVal(pid), snap, lo, hi)))      # empty interval
-            return [(st, SBool(NOMATCHF(z3.IntVal(pid), snap, lo, hi)))]
+            self.add_fact(st, z3.Implies(lo >= hi, NOMATCHF(zp, zs, lo, hi)))      # empty interval
+            for (p2, s2, j) in reg['M']:
+                if (p2, s2) == (pid, snap):
+                    # interval law instantiated at a known index: NOMATCH(lo,hi) and lo <= j < hi  =>  not MATCH(j)
+                    self.add_fact(st, z3.Implies(z3.And(NOMATCHF(zp, zs, lo, hi), lo <= j, j < hi),
+                                                 z3.Not(MATCHF(zp, zs, j))))
+            reg['N'].append((pid, snap, lo, hi))
+            return [(st, SBool(NOMATCHF(zp, zs, lo, hi)))]
         if name == 'SAME_ITEMS':
             a, b = args
             return [(st, st.lists[a.lid] == st.lists[b.lid])]
@@ -745,11 +773,30 @@ _SNAPS = {}
 
 
 def pred_id(f):
+    """identity of a predicate: an opaque predicate by its id; a closure by its code and the values it captured
+    (two closures made from the same lambda/def with the same captured values are the same predicate)"""
     if isinstance(f, Opaque) and isinstance(f.data, dict) and 'pid' in f.data:
         return f.data['pid']
-    if isinstance(f, tuple) and len(f) == 1:
+    if isinstance(f, (tuple, list)) and len(f) == 1:
         return pred_id(f[0])
-    k = id(f)
+    if isinstance(f, Func) and f.node is not None:
+        used = {n.id for n in ast.walk(f.node) if isinstance(n, ast.Name)}
+        env = f.closure.env if f.closure is not None else {}
+        cap = []
+        for name in sorted(used):
+            if name in env:
+                v = env[name]
+                if isinstance(v, Rec):
+                    cap.append((name, 'rec', v.oid))
+                elif hasattr(v, 'z'):
+                    cap.append((name, 'z', str(v.z)))
+                elif isinstance(v, Func):
+                    cap.append((name, 'fn', id(v.node)))
+                else:
+                    cap.append((name, 'c', repr(v)))
+        k = ('closure', id(f.node), tuple(cap))
+    else:
+        k = ('obj', id(f))
     if k not in _PIDS:
         _PIDS[k] = (next(_ids), f)
     return _PIDS[k][0]
@@ -797,8 +844,8 @@ SEGTXT = z3.Function('SEGTXT', z3.IntSort(), z3.IntSort(), z3.IntSort(), z3.Stri
 
 
 class _NeedCase(Exception):
-    def __init__(self, off, k, cum, ln):
-        self.off, self.k, self.cum, self.ln = off, k, cum, ln
+    def __init__(self, off, k, cum, ln, cases):
+        self.off, self.k, self.cum, self.ln, self.cases = off, k, cum, ln, cases
 
 
 def install(st):
